@@ -1,5 +1,5 @@
 import IoraModel.Lemmas.DnsSafe
-import IoraModel.Lemmas.DnsTyped
+import IoraModel.Lemmas.DnsWork
 import IoraModel.Lemmas.DnsCache
 import IoraModel.Lemmas.DnsTransport
 /-!
@@ -14,49 +14,58 @@ open Iora Iora.Dns Iora.DnsCache
 
 /-! ## N1 — names -/
 
-/-- **N1a (soundness against RFC 1035, every layout of compression pointers).** If the bytes at `off` denote the labels `ls`
-in the sense of the reference relation `Denotes` — labels, pointers at any position, pointers to pointers, forward or
-backward, anything whose chain is finite — and the name is within the decoder's limit (`wire ls ≤ 253`), then `decodeName`
-returns exactly those labels in presentation form, and the offset at which the enclosing record continues. -/
-theorem N1_sound (m : Bytes) (off : Nat) (ls : List Bytes) (next : Nat)
-    (h : Denotes m off ls next) (hlen : wire ls ≤ 253) :
+/-- **N1a (soundness against RFC 1035, every layout of compression pointers).** If the bytes at `off` are a well-formed name
+with labels `ls` — `WellFormedName`: the reference relation `DenotesH` (labels, pointers at any position, pointers to
+pointers, forward or backward, anything whose chain is finite), the RFC 1035 §2.3.4 length limit of 255 octets on the wire
+including the root label, and at most `maxJumps` = 128 compression pointers followed (the decoder's documented bound; a name
+has at most 127 labels and compressors point at labels) — then `decodeName` returns exactly those labels in presentation
+form, and the offset at which the enclosing record continues. -/
+theorem N1_sound (m : Bytes) (off : Nat) (ls : List Bytes) (next : Nat) (h : WellFormedName m off ls next) :
     decodeName m off = .ok (dottedName ls, next) :=
-  decodeName_sound m off ls next h hlen
+  decodeName_sound m off ls next h
 
 /-- non-vacuity: `03 'w' 'w' 'w' C0 00` preceded by `01 'a' 00` — a label followed by a pointer to an earlier name -/
-example : Denotes [1, 97, 0, 3, 119, 119, 119, 192, 0] 3 [[119, 119, 119], [97]] 9 := by
-  have h0 : Denotes [1, 97, 0, 3, 119, 119, 119, 192, 0] 0 [[97]] 3 :=
-    Denotes.label (b := 1) (by decide) (by decide) (by decide) (by decide) (Denotes.root (by decide))
-  have h7 : Denotes [1, 97, 0, 3, 119, 119, 119, 192, 0] 7 [[97]] 9 :=
-    Denotes.ptr (b := 192) (b2 := 0) (by decide) (by decide) (by decide) h0
-  exact Denotes.label (b := 3) (by decide) (by decide) (by decide) (by decide) h7
+example : WellFormedName [1, 97, 0, 3, 119, 119, 119, 192, 0] 3 [[119, 119, 119], [97]] 9 := by
+  have h0 : DenotesH [1, 97, 0, 3, 119, 119, 119, 192, 0] 0 [[97]] 3 0 :=
+    DenotesH.label (b := 1) (by decide) (by decide) (by decide) (by decide) (DenotesH.root (by decide))
+  have h7 : DenotesH [1, 97, 0, 3, 119, 119, 119, 192, 0] 7 [[97]] 9 1 :=
+    DenotesH.ptr (b := 192) (b2 := 0) (by decide) (by decide) (by decide) h0
+  exact ⟨1, DenotesH.label (b := 3) (by decide) (by decide) (by decide) (by decide) h7, by decide, by decide⟩
 
-/-- **N1b (completeness: exact or rejected).** An `ok` answer of `decodeName` is always a name the bytes denote: the RFC
-relation holds for exactly the returned labels and continuation offset.  Hence a pointer loop, a pointer outside the
-message, a label running past the end and a name without its root label are NEVER accepted (none of them has a
-`Denotes` derivation). -/
+/-- **N1b (completeness: exact or rejected).** An `ok` answer of `decodeName` is always a well-formed name the bytes denote, with
+exactly the returned labels and continuation offset.  Hence a pointer loop, a pointer outside the message, a label running
+past the end and a name without its root label are NEVER accepted (none of them has a derivation). -/
 theorem N1_complete (m : Bytes) (off : Nat) (n : Bytes) (next : Nat) (h : decodeName m off = .ok (n, next)) :
-    ∃ ls, Denotes m off ls next ∧ n = dottedName ls ∧ wire ls ≤ 253 :=
+    ∃ ls, WellFormedName m off ls next ∧ n = dottedName ls :=
   decodeName_complete m off n next h
 
-/-- full-strength N1a with the RFC 1035 §2.3.4 limit (255 octets including the root label, i.e. `wire ls ≤ 254`) -/
-def N1_rfc_limit_statement : Prop :=
-  ∀ (m : Bytes) (off : Nat) (ls : List Bytes) (next : Nat), Denotes m off ls next → wire ls ≤ 254 →
-    decodeName m off = .ok (dottedName ls, next)
+/-- **N1 (exactly).** Both directions in one statement. -/
+theorem N1_exact (m : Bytes) (off : Nat) (n : Bytes) (next : Nat) :
+    decodeName m off = .ok (n, next) ↔ ∃ ls, WellFormedName m off ls next ∧ n = dottedName ls :=
+  decodeName_exact m off n next
 
-/-- **refuted** (finding FC19b): `totalLength > DNS_MAX_NAME_SIZE (253)` compares the running WIRE length (length octets
-included) with the limit for the PRESENTATION form, so a legal maximum-length name — 255 octets on the wire, 253 characters
-in text — is rejected with "Domain name too long".  The partial theorem is `N1_sound` (`wire ls ≤ 253`). -/
-theorem N1_rfc_limit_refuted : ¬ N1_rfc_limit_statement := by
-  intro h
-  have h1 := h longNameMsg 0 longNameLabels 255 longName_denotes (by rw [longName_wire]; omega)
-  rw [longName_rejected] at h1
-  cases h1
+/-- the reference relation with and without the pointer count describe the same names -/
+theorem N1_denotes_iff (m : Bytes) (off : Nat) (ls : List Bytes) (next : Nat) :
+    Denotes m off ls next ↔ ∃ h, DenotesH m off ls next h :=
+  ⟨fun h => h.toH, fun ⟨_, h⟩ => h.toDenotes⟩
+
+/-- **N1 (RFC 1035 maximum).** The legal maximum-length name — 255 octets on the wire, labels 63.63.63.61 — is accepted (it was
+rejected before the repair of FC19b, which compared the wire length with the presentation-form limit 253). -/
+theorem N1_max_length_name_accepted : decodeName longNameMsg 0 = .ok (dottedName longNameLabels, 255) :=
+  decodeName_sound _ _ _ _ longName_wellFormed
 
 /-- presentation form: the labels joined by dots -/
 theorem N1_dotted (l : Bytes) (ls : List Bytes) (hl : l ≠ []) :
     dottedName (l :: ls) = l ++ (ls.map (fun x => (46 : UInt8) :: x)).flatten :=
   dottedName_cons l ls hl
+
+/-- **N1c (encoder).** What `encodeName` accepts and writes: the uncompressed RFC 1035 encoding of the non-empty dot-separated
+pieces of the name, every label 1..63 octets, at most 255 octets in all (RFC limit; 253 before the repair of FC19b). -/
+theorem N1_encodeName (name w : Bytes) (h : encodeName name = .ok w) :
+    w = encodeWire (labelsOf name) ∧ ValidLabels (labelsOf name) ∧ w.length ≤ 255 := by
+  obtain ⟨e, hv, hl⟩ := encodeName_ok h
+  refine ⟨e, hv, ?_⟩
+  rw [e, encodeWire_length]; exact hl
 
 /-- **N1c (encode/decode round trip).** A name accepted by `encodeName`, placed anywhere in a message, decodes to its
 non-empty dot-separated pieces joined by dots, and decoding continues right behind it. -/
@@ -66,16 +75,19 @@ theorem N1_roundtrip (name w : Bytes) (h : encodeName name = .ok w) (pre post : 
 
 example : encodeName [119, 119, 119, 46, 97] = .ok [3, 119, 119, 119, 1, 97, 0] := rfl
 
-/-- **N1q (query round trip).** Every query built by `buildQuery` (explicit non-zero id) parses back to the same id, RD flag
-and question list (names normalised by dropping empty labels), with empty record sections. -/
-theorem N1_query_roundtrip (qs : List Question) (rd : Bool) (id : Nat) (w : Bytes) (h : buildQuery qs rd id = .ok w)
-    (hid : id < 65536) (hn : qs.length < 65536) (hq : ∀ q ∈ qs, q.qtype < 65536 ∧ q.qclass < 65536) :
-    parse w = .ok { header := { id := id, qr := false, opcode := 0, aa := false, tc := false, rd := rd, ra := false, z := 0,
-                                rcode := 0, qd := qs.length, an := 0, ns := 0, ar := 0 },
+/-- **N1q (query round trip).** Every query built by `buildQuery` parses back to its id, RD flag and question list (names
+normalised by dropping empty labels), with empty record sections.  The id is the caller's when it is non-zero; for `id = 0`
+the code draws one from `generateQueryId()` (an input `generated` of the model) and the round trip holds for that id. -/
+theorem N1_query_roundtrip (qs : List Question) (rd : Bool) (id generated : Nat) (w : Bytes)
+    (h : buildQuery qs rd id generated = .ok w)
+    (hid : (if id = 0 then generated else id) < 65536) (hn : qs.length < 65536) (hq : ∀ q ∈ qs, q.qtype < 65536 ∧ q.qclass < 65536) :
+    parse w = .ok { header := { id := if id = 0 then generated else id, qr := false, opcode := 0, aa := false, tc := false,
+                                rd := rd, ra := false, z := 0, rcode := 0, qd := qs.length, an := 0, ns := 0, ar := 0 },
                     questions := qs.map normQ } :=
-  parse_buildQuery qs rd id w h hid hn hq
+  parse_buildQuery qs rd id generated w h hid hn hq
 
 example : ∃ w, buildQuery [{ qname := [97, 46, 98], qtype := 33, qclass := 1 }] true 7 = .ok w := ⟨_, rfl⟩
+example : ∃ w, buildQuery [{ qname := [97, 46, 98], qtype := 33, qclass := 1 }] true 0 4711 = .ok w := ⟨_, rfl⟩
 
 /-! ## N3 / N4 — safety and prompt termination for arbitrary bytes -/
 
@@ -93,10 +105,28 @@ theorem N3_rdataName_no_oob (m : Bytes) (rdStart rdOff : Nat) (r : Bytes) : rdat
   (rdataName_safe m rdStart rdOff r).1
 
 /-- **N4a (prompt termination of name decoding).** For ARBITRARY bytes and any start offset the loop of
-`decodeNameWithLoopDetection` performs at most `size + 127` iterations (each label adds ≥ 2 to the 253-capped running
-length, each jump consumes a fresh pointer target `< size`): the fuel `size + 128` is never exhausted. -/
+`decodeNameWithLoopDetection` never exhausts its fuel — and the fuel is the CONSTANT 257 (`N4_name_iterations_constant`): each
+label adds ≥ 2 to the running length capped at 255, each jump counts against `maxJumps` = 128.  The cost of one name does
+not depend on the message (before the repair of FC19c it was bounded only by the number of distinct pointer targets, i.e.
+by the message size). -/
 theorem N4_name_fuel (m : Bytes) (off : Nat) : decodeName m off ≠ .error .fuel :=
   decodeName_no_fuel m off
+
+theorem N4_name_iterations_constant (m : Bytes) : nameFuel m = 257 := nameFuel_const m
+
+/-- **N4d (message level: rounds).** Whatever the four 16-bit counts of the header claim, `parse` executes at most
+`(size + 11) / 5` question / record rounds: an accepted question occupies ≥ 5 bytes, an accepted record ≥ 11, and the first
+rejected one ends the parse. -/
+theorem N4_message_rounds_linear (m : Bytes) : 5 * parseRounds m ≤ m.length + 11 := parseRounds_le m
+
+/-- **N4e (message level: total work).** rounds × names per round (3: owner/question name + at most two RDATA names, read off
+the model) × iterations per name (257) ≤ `workBound size` = `((size + 11) / 5) · 771` — LINEAR in the message size.  (The
+counter-example of the review — 4 098 records × an 8 172-hop chain, 33·10⁶ iterations, seconds on the I/O thread — is now
+rejected at the first record.) -/
+theorem N4_message_work_linear (m : Bytes) : parseRounds m * (namesPerRound * nameFuel m) ≤ workBound m.length :=
+  parse_work_linear m
+
+example : workBound 65535 = 10107039 := by decide
 
 /-- **N4b.** The whole parser never exhausts fuel either; everything else in it is structurally bounded by the 16-bit section
 counts and the RDATA length. -/
@@ -113,6 +143,21 @@ theorem N4_out_of_range_rejected (m : Bytes) (off : Nat) (b b2 : UInt8) (h0 : m[
     (hp : 192 ≤ b.toNat) (hr : m.length ≤ (b.toNat % 64) * 256 + b2.toNat) :
     ∃ e, decodeName m off = .error e :=
   out_of_range_rejected m off b b2 h0 h1 hp hr
+
+/-- non-vacuity: `C0 05` in a 2-byte buffer -/
+example : ∃ e, decodeName [192, 5] 0 = .error e :=
+  N4_out_of_range_rejected [192, 5] 0 192 5 (by decide) (by decide) (by decide) (by decide)
+
+/-- **N4f (malformed names INSIDE RDATA).** When the typed parser of a record throws — a pointer loop, an out-of-range pointer,
+a truncated name inside RDATA, a wrong RDATA length — the message is NOT rejected: the raw record is kept and the typed
+record is silently omitted (`catch (const std::exception &)` in `parseTypedRecord`). -/
+theorem N4_rdata_error_drops_typed (m : Bytes) (rr : RR) (o : Nat) (e : Err) (h : typedOf rr m o = .error e) :
+    typedSpec m (rr, o) = none :=
+  typedSpec_none_of_error h
+
+set_option maxRecDepth 100000 in
+/-- non-vacuity: a CNAME whose RDATA is a pointer to itself -/
+example : typedOf { name := [], type := 5, cls := 1, ttl := 1, rdlength := 2, rdata := [192, 0] } [192, 0, 0] 0 = .error .loop := rfl
 
 /-! ## N2 — records: what is proved, what is refuted -/
 
@@ -141,6 +186,11 @@ theorem N2_A_partial (rr : RR) (ht : rr.type = 1) (hl : rr.rdata.length = 4) (hk
     validateRdata rr = .ok () ∧ parseA rr = .ok (.a rr.name rr.rdata rr.ttl) :=
   a_record_ok rr ht hl hk
 
+/-- tightness of the carve-out: every 4-byte A record inside `aRuleFires` IS rejected, so `aRuleFires` is exactly the set lost -/
+theorem N2_A_carveout_tight (rr : RR) (ht : rr.type = 1) (hl : rr.rdata.length = 4) (hk : aRuleFires rr.rdata = true) :
+    validateRdata rr = .error .malicious :=
+  a_rule_rejects rr ht hl hk
+
 example : aRuleFires [192, 64, 0, 0] = false ∧ aRuleFires [10, 0, 0, 1] = false ∧ aRuleFires [192, 32, 0, 0] = true := by decide
 
 /-- **N2 (no other record type is ever rejected by the validation).** After the repair of F12/F13 the validation looks at A
@@ -150,6 +200,13 @@ theorem N2_other_types_pass (rr : RR) (ht : rr.type ≠ 1) : validateRdata rr = 
   validate_other rr ht
 
 theorem N2_gen_shape : Gen.Dns.validatedTypes = [1] ∧ Gen.Dns.validateHasSizeMinusOne = false := ⟨rfl, rfl⟩
+
+/-- generated-facts conformance (tripwire, `rfl` on `Gen/Dns.lean`): the decoder counts the root label against a limit of 255,
+bounds the compression pointers per name by 128 and treats an unterminated name as an error.  (`Gen.Dns.lowerAsciiOnly` is
+deliberately NOT part of it: with `<cctype>` tolower the model's ASCII fold is right in the "C" locale only, and the plugin
+then lists that as an assumption of the run.) -/
+theorem N1_gen_shape : Gen.Dns.maxName = 255 ∧ Gen.Dns.nameLimitCountsRoot = true ∧ Gen.Dns.hasJumpCap = true ∧
+    Gen.Dns.maxJumps = 128 ∧ Gen.Dns.unterminatedIsError = true := ⟨rfl, rfl, rfl, rfl, rfl⟩
 
 /-- AAAA and TXT typed decoding is exact for arbitrary octets: 16 bytes are an address, and a sequence of character strings
 decodes to exactly those strings -/
@@ -164,8 +221,9 @@ theorem N2_txt_exact (rr : RR) (ts : List Bytes) (h : ∀ t ∈ ts, t.length < 2
 example : encodeTxt [[195, 169], []] = [2, 195, 169, 0] := by decide
 
 /-- **N2 (whole response, names compressed at any position).** A message laid out as RFC 1035 §4.1 prescribes — 12-byte
-header, questions, three record sections; EVERY question and owner name encoded in any way the reference relation `Denotes`
-admits (labels, pointers anywhere, chains, forward pointers) — and in which no record trips the recorded A rule
+header, questions, three record sections; EVERY question and owner name a `WellFormedName` (encoded in any way the reference
+relation admits — labels, pointers anywhere, chains, forward pointers — within the RFC length limit and the bound of 128
+pointers per name; `QuestionAt` / `RecordAt` say exactly this and nothing more) — and in which no record trips the recorded A rule
 (`validateRdata = ok`: automatic for every type but A, see `N2_other_types_pass` / `N2_A_partial`), parses to EXACTLY its
 header fields, questions and raw resource records; the typed vectors are the per-record typed decodings in order of
 appearance (`typedSpec`, characterised per type below). -/
@@ -192,24 +250,33 @@ example :
     QuestionsAt m 12 [{ qname := [97], qtype := 1, qclass := 1 }] 19 ∧ RecordsAt m 19 [(rr, 31)] 35 ∧
       validateRdata rr = .ok () := by
   intro rest m rr
-  have d12 : Denotes m 12 [[97]] 15 :=
-    Denotes.label (b := 1) (by decide) (by decide) (by decide) (by decide) (Denotes.root (by decide))
-  have d19 : Denotes m 19 [[97]] 21 := Denotes.ptr (b := 192) (b2 := 12) (by decide) (by decide) (by decide) d12
-  refine ⟨.cons ⟨[[97]], m.take 15, m.drop 19, d12, by decide, rfl, by decide, by decide, by decide, rfl⟩ (.nil _),
-    .cons ⟨[[97]], m.take 21, m.drop 35, d19, by decide, rfl, by decide, by decide, by decide, by decide, rfl, by decide, rfl, rfl⟩ (.nil _),
+  have d12 : DenotesH m 12 [[97]] 15 0 :=
+    DenotesH.label (b := 1) (by decide) (by decide) (by decide) (by decide) (DenotesH.root (by decide))
+  have d19 : DenotesH m 19 [[97]] 21 1 := DenotesH.ptr (b := 192) (b2 := 12) (by decide) (by decide) (by decide) d12
+  refine ⟨.cons ⟨[[97]], m.take 15, m.drop 19, ⟨0, d12, by decide, by decide⟩, rfl, by decide, by decide, by decide, rfl⟩ (.nil _),
+    .cons ⟨[[97]], m.take 21, m.drop 35, ⟨1, d19, by decide, by decide⟩, rfl, by decide, by decide, by decide, by decide, rfl, by decide, rfl, rfl⟩ (.nil _),
     (N2_A_partial rr rfl rfl (by decide)).1⟩
 
-/-- **N2 (names inside RDATA, every compression layout).** If the RDATA (a slice of the message) holds at `rdOff` a name
-denoting `ls` that ends inside the RDATA, `decodeNameFromRdata` returns exactly it and the offset behind it. -/
+/-- **N2 (names inside RDATA, every compression layout).** If the RDATA (a slice of the message) holds at `rdOff` a well-formed
+name with labels `ls` that ends inside the RDATA, `decodeNameFromRdata` returns exactly it and the offset behind it.  The root
+name is covered when written as a root label (null MX of RFC 7505, SRV target `.`); excluded is only a POINTER to a root label. -/
 theorem N2_rdata_name (m r : Bytes) (rdStart rdOff nx : Nat) (ls : List Bytes)
     (hr : r = slice m rdStart r.length) (hoff : rdOff < r.length)
-    (hd : Denotes m (rdStart + rdOff) ls (rdStart + nx)) (hnx : nx ≤ r.length) (hw : wire ls ≤ 253) (hne : ls ≠ []) :
+    (hd : WellFormedName m (rdStart + rdOff) ls (rdStart + nx)) (hnx : nx ≤ r.length)
+    (hne : ls ≠ [] ∨ m[rdStart + rdOff]? = some 0) :
     rdataName m rdStart rdOff r = .ok (dottedName ls, nx) :=
-  rdataName_exact m r rdStart rdOff nx ls hr hoff hd hnx hw hne
+  rdataName_exact m r rdStart rdOff nx ls hr hoff hd hnx hne
+
+/-- non-vacuity: name `a` at 0, and RDATA `C0 00` at 3 -/
+example : rdataName [1, 97, 0, 192, 0] 3 0 [192, 0] = .ok (dottedName [[97]], 2) := by
+  have h0 : DenotesH [1, 97, 0, 192, 0] 0 [[97]] 3 0 :=
+    DenotesH.label (b := 1) (by decide) (by decide) (by decide) (by decide) (DenotesH.root (by decide))
+  exact N2_rdata_name [1, 97, 0, 192, 0] [192, 0] 3 0 2 [[97]] (by decide) (by decide)
+    ⟨1, DenotesH.ptr (b := 192) (b2 := 0) (by decide) (by decide) (by decide) h0, by decide, by decide⟩ (by decide) (Or.inl (by decide))
 
 /-- **N2 (typed records).** Exact typed decoding per record type: A and AAAA for arbitrary octets, TXT for arbitrary
-character strings, CNAME / PTR / MX / SRV with the embedded name compressed in any way; types without a typed parser (NS,
-OPT, unknown) yield no typed record. -/
+character strings, CNAME / PTR / MX / SRV with the embedded name compressed in any way (root target included when written as
+a root label); types without a typed parser (NS, OPT, unknown) yield no typed record. -/
 theorem N2_typed_a (m : Bytes) (rr : RR) (o : Nat) (ht : rr.type = 1) (hl : rr.rdata.length = 4) :
     typedSpec m (rr, o) = some (.a rr.name rr.rdata rr.ttl) := typed_a m rr o ht hl
 theorem N2_typed_aaaa (m : Bytes) (rr : RR) (o : Nat) (ht : rr.type = 28) (hl : rr.rdata.length = 16) :
@@ -217,21 +284,44 @@ theorem N2_typed_aaaa (m : Bytes) (rr : RR) (o : Nat) (ht : rr.type = 28) (hl : 
 theorem N2_typed_txt (m : Bytes) (rr : RR) (o : Nat) (ts : List Bytes) (ht : rr.type = 16) (h : ∀ t ∈ ts, t.length < 256)
     (hr : rr.rdata = encodeTxt ts) : typedSpec m (rr, o) = some (.txt rr.name ts rr.ttl) := typed_txt m rr o ts ht h hr
 theorem N2_typed_cname (m : Bytes) (rr : RR) (o : Nat) (ls : List Bytes) (ht : rr.type = 5)
-    (hr : rr.rdata = slice m o rr.rdata.length) (hd : Denotes m o ls (o + rr.rdata.length)) (hw : wire ls ≤ 253) (hne : ls ≠ []) :
-    typedSpec m (rr, o) = some (.cname rr.name (dottedName ls) rr.ttl) := typed_cname m rr o ls ht hr hd hw hne
+    (hr : rr.rdata = slice m o rr.rdata.length) (hd : WellFormedName m o ls (o + rr.rdata.length))
+    (hne : ls ≠ [] ∨ m[o]? = some 0) :
+    typedSpec m (rr, o) = some (.cname rr.name (dottedName ls) rr.ttl) := typed_cname m rr o ls ht hr hd hne
 theorem N2_typed_ptr (m : Bytes) (rr : RR) (o : Nat) (ls : List Bytes) (ht : rr.type = 12)
-    (hr : rr.rdata = slice m o rr.rdata.length) (hd : Denotes m o ls (o + rr.rdata.length)) (hw : wire ls ≤ 253) (hne : ls ≠ []) :
-    typedSpec m (rr, o) = some (.ptr rr.name (dottedName ls) rr.ttl) := typed_ptr m rr o ls ht hr hd hw hne
+    (hr : rr.rdata = slice m o rr.rdata.length) (hd : WellFormedName m o ls (o + rr.rdata.length))
+    (hne : ls ≠ [] ∨ m[o]? = some 0) :
+    typedSpec m (rr, o) = some (.ptr rr.name (dottedName ls) rr.ttl) := typed_ptr m rr o ls ht hr hd hne
 theorem N2_typed_mx (m : Bytes) (rr : RR) (o : Nat) (ls : List Bytes) (pref : Nat) (ht : rr.type = 15)
     (hr : rr.rdata = slice m o rr.rdata.length) (hp : rd16 rr.rdata 0 = .ok pref) (hlen : 2 < rr.rdata.length)
-    (hd : Denotes m (o + 2) ls (o + rr.rdata.length)) (hw : wire ls ≤ 253) (hne : ls ≠ []) :
-    typedSpec m (rr, o) = some (.mx rr.name pref (dottedName ls) rr.ttl) := typed_mx m rr o ls pref ht hr hp hlen hd hw hne
+    (hd : WellFormedName m (o + 2) ls (o + rr.rdata.length)) (hne : ls ≠ [] ∨ m[o + 2]? = some 0) :
+    typedSpec m (rr, o) = some (.mx rr.name pref (dottedName ls) rr.ttl) := typed_mx m rr o ls pref ht hr hp hlen hd hne
 theorem N2_typed_srv (m : Bytes) (rr : RR) (o : Nat) (ls : List Bytes) (prio weight port : Nat) (ht : rr.type = 33)
     (hr : rr.rdata = slice m o rr.rdata.length) (h0 : rd16 rr.rdata 0 = .ok prio) (h2 : rd16 rr.rdata 2 = .ok weight)
     (h4 : rd16 rr.rdata 4 = .ok port) (hlen : 6 < rr.rdata.length)
-    (hd : Denotes m (o + 6) ls (o + rr.rdata.length)) (hw : wire ls ≤ 253) (hne : ls ≠ []) :
+    (hd : WellFormedName m (o + 6) ls (o + rr.rdata.length)) (hne : ls ≠ [] ∨ m[o + 6]? = some 0) :
     typedSpec m (rr, o) = some (.srv rr.name prio weight port (dottedName ls) rr.ttl) :=
-  typed_srv m rr o ls prio weight port ht hr h0 h2 h4 hlen hd hw hne
+  typed_srv m rr o ls prio weight port ht hr h0 h2 h4 hlen hd hne
+
+/-- non-vacuity: CNAME and PTR whose RDATA is `C0 00` → `a`; the null MX `0 .` of RFC 7505; an SRV record with target `.` -/
+example : typedSpec [1, 97, 0, 192, 0] ({ name := [], type := 5, cls := 1, ttl := 9, rdlength := 2, rdata := [192, 0] }, 3) =
+    some (.cname [] (dottedName [[97]]) 9) := by
+  have h0 : DenotesH [1, 97, 0, 192, 0] 0 [[97]] 3 0 :=
+    DenotesH.label (b := 1) (by decide) (by decide) (by decide) (by decide) (DenotesH.root (by decide))
+  exact N2_typed_cname _ _ 3 [[97]] rfl (by decide)
+    ⟨1, DenotesH.ptr (b := 192) (b2 := 0) (by decide) (by decide) (by decide) h0, by decide, by decide⟩ (Or.inl (by decide))
+example : typedSpec [1, 97, 0, 192, 0] ({ name := [], type := 12, cls := 1, ttl := 9, rdlength := 2, rdata := [192, 0] }, 3) =
+    some (.ptr [] (dottedName [[97]]) 9) := by
+  have h0 : DenotesH [1, 97, 0, 192, 0] 0 [[97]] 3 0 :=
+    DenotesH.label (b := 1) (by decide) (by decide) (by decide) (by decide) (DenotesH.root (by decide))
+  exact N2_typed_ptr _ _ 3 [[97]] rfl (by decide)
+    ⟨1, DenotesH.ptr (b := 192) (b2 := 0) (by decide) (by decide) (by decide) h0, by decide, by decide⟩ (Or.inl (by decide))
+example : typedSpec [0, 0, 0] ({ name := [], type := 15, cls := 1, ttl := 9, rdlength := 3, rdata := [0, 0, 0] }, 0) =
+    some (.mx [] 0 (dottedName []) 9) :=
+  N2_typed_mx _ _ 0 [] 0 rfl (by decide) rfl (by decide) ⟨0, DenotesH.root (by decide), by decide, by decide⟩ (Or.inr (by decide))
+example : typedSpec [0, 1, 0, 2, 0, 3, 0] ({ name := [], type := 33, cls := 1, ttl := 9, rdlength := 7, rdata := [0, 1, 0, 2, 0, 3, 0] }, 0) =
+    some (.srv [] 1 2 3 (dottedName []) 9) :=
+  N2_typed_srv _ _ 0 [] 1 2 3 rfl (by decide) rfl rfl rfl (by decide) ⟨0, DenotesH.root (by decide), by decide, by decide⟩ (Or.inr (by decide))
+
 theorem N2_typed_none (m : Bytes) (rr : RR) (o : Nat) (ht : Gen.Dns.typedTypes.contains rr.type = false) :
     typedSpec m (rr, o) = none := typed_none m rr o ht
 
@@ -253,7 +343,14 @@ theorem N6_error_completes_by_first_two_bytes (pending : List Nat) (data : Bytes
   DnsTransport.processResponse_error pending data e he h2
 
 set_option maxRecDepth 100000 in
-example : parse [18, 52, 129, 128, 0, 1, 0, 0, 0, 0, 0, 0, 192, 12, 0, 1, 0, 1] = .error .loop := rfl
+/-- non-vacuity of N6a/N6b: a message with a self-pointing question name, pending queries 0x1234 and 7 -/
+example : DnsTransport.processResponse [4660, 7] [18, 52, 129, 128, 0, 1, 0, 0, 0, 0, 0, 0, 192, 12, 0, 1, 0, 1] =
+    .ok (some (.parseError 4660), [7]) := rfl
+
+set_option maxRecDepth 100000 in
+/-- non-vacuity of N6c: an accepted message -/
+example : ∃ r, parse [18, 52, 129, 128, 0, 0, 0, 0, 0, 0, 0, 0] = .ok r ∧
+    DnsTransport.processResponse [4660, 7] [18, 52, 129, 128, 0, 0, 0, 0, 0, 0, 0, 0] = .ok (some (.result 4660 r), [7]) := ⟨_, rfl, rfl⟩
 
 /-- **N6c.** An accepted message completes the pending query whose id is its first two bytes, with the parsed result. -/
 theorem N6_ok_completes (pending : List Nat) (data : Bytes) (r : Result) (h : parse data = .ok r) :
@@ -261,6 +358,22 @@ theorem N6_ok_completes (pending : List Nat) (data : Bytes) (r : Result) (h : pa
     DnsTransport.processResponse pending data =
       .ok (if pending.contains r.header.id then some (.result r.header.id r) else none, pending.filter (· ≠ r.header.id)) :=
   DnsTransport.processResponse_ok pending data r h
+
+/-- full-strength statement one would want at this seam (RFC 5452 §9.1): a response is accepted for a pending query only if
+its question section is the question that was asked -/
+def N6_question_checked_statement : Prop :=
+  ∀ (pending : List Nat) (data : Bytes) (r : Result) (asked : Question),
+    parse data = .ok r → r.questions ≠ [asked] → ∀ out, DnsTransport.processResponse pending data = .ok out → out.1.isNone
+
+set_option maxRecDepth 100000 in
+/-- **refuted** (finding FC19e): `processResponse` keys the pending query by (id, server, port) only; neither it nor
+`DnsResolver::query/queryAsync` compare `result.questions` with the request before `cache_->put(question, result)`.  A
+response with the right 16-bit id but another (here: no) question completes the query and is cached under the ASKED key. -/
+theorem N6_question_checked_refuted : ¬ N6_question_checked_statement := by
+  intro h
+  have h1 := h [4660] [18, 52, 129, 128, 0, 0, 0, 0, 0, 0, 0, 0] _ { qname := [97], qtype := 1, qclass := 1 } rfl
+    (by intro hc; cases hc) _ rfl
+  cases h1
 
 /-! ## N5 — the cache honours TTL, for every history -/
 
@@ -299,6 +412,11 @@ theorem N5_key_iff (q q' : Question) :
   simp [Key.fromQuestion]
 
 /-- **N5d (TTL 0 is never served)** — the F14 repair, visible in the generated facts the model is built on -/
+theorem N5_lock_skeleton : Gen.Dns.cacheLockedMethods = ["set", "get", "remove", "size", "purge"] := rfl
+
+/-- generated-facts conformance (tripwire): TTL 0 is never stored (F14 repair); the expiry comparison is strict.
+`N5_lock_skeleton` above: every ExpiringCache method and the purge sweep use `_cache` only inside the scope of a guard over
+`_mutex` — the justification for modelling cache operations as atomic steps of a history. -/
 theorem N5_zero_ttl_guard : Gen.Dns.zeroTtlNotCachedPut = true ∧ Gen.Dns.zeroTtlNotCachedNeg = true ∧ Gen.Dns.getStrict = true :=
   ⟨rfl, rfl, rfl⟩
 
